@@ -141,6 +141,34 @@ pub fn check_large(_alg: Algorithm, inp: &super::large::LargeInput) -> Result<(b
     if got != reference {
         return Err("Patience ops change under the relabelling x -> 7919x+13".into());
     }
+    // the same items as lines of text: str against a caller-side DiffableStr with the same
+    // equalities but other hashes (a legal, coarse hash: the line length only)
+    if old.len() + new.len() <= 1200 {
+        let to: String = old.iter().map(|x| format!("{}\n", x)).collect();
+        let tn: String = new.iter().map(|x| format!("{}\n", x)).collect();
+        for &alg in ALGS.iter() {
+            if alg == Algorithm::Lcs && (old.len() > 300 || new.len() > 300) {
+                continue;
+            }
+            let (a, b) = subject(|| {
+                use crate::instr::Ch;
+                (
+                    TextDiff::configure().algorithm(alg).diff_lines(&to[..], &tn[..]).ops().to_vec(),
+                    TextDiff::configure().algorithm(alg).diff_lines(Ch::new(to.as_bytes()), Ch::new(tn.as_bytes())).ops().to_vec(),
+                )
+            })
+            .map_err(|p| format!("line diff: panic: {}", p))?;
+            runs += 2;
+            if a != b {
+                return Err(format!(
+                    "{}: the line diff of the same text changes when the lines keep their equalities but hash differently (a DiffableStr whose hash is the line length only): {} ops vs {} ops",
+                    alg_name(alg),
+                    a.len(),
+                    b.len()
+                ));
+            }
+        }
+    }
     Ok((true, runs, ops_fp(&reference)))
 }
 
